@@ -32,6 +32,8 @@ func TestVerifC17(t *testing.T) {
 	verifsim.Main(t, verifsim.World{
 		Prop: "C17", Name: "W-PEERS",
 		Run: func(s *verifsim.Sim) {
+			s.WriterPref = s.Chance(1, 2, "rwmutex_writer_preference")
+			s.Cfg["writer_pref"] = s.WriterPref
 			if s.ChooseW([]int{1, 1}, "world") == 0 {
 				vsPoolWorld(s)
 			} else {
@@ -362,9 +364,9 @@ func vsManagerWorld(s *verifsim.Sim) {
 	if err != nil {
 		panic(err)
 	}
-	go m.subscribeHeader(ctx, hsub)
-	go m.subscribeDisconnectedPeers(ctx, evsub)
-	go m.GC(ctx)
+	s.Spawn("subscribeHeader", func() { m.subscribeHeader(ctx, hsub) })
+	s.Spawn("subscribeDisconnectedPeers", func() { m.subscribeDisconnectedPeers(ctx, evsub) })
+	s.Spawn("GC", func() { m.GC(ctx) })
 
 	ids := make([]peer.ID, npeers)
 	for i := range ids {
